@@ -71,7 +71,10 @@ func (e *Enc) extCall(ins ssa.Instruction, name string, callee *ssa.Function, si
 			e.assert(implies(and(reach, app("=", er.T, "nil")), app("=", nb, app("bsub", rem, "0", L))))
 			e.assert(app("=", app("blen", nb), L))
 			e.setBytes(h, buf.T, nb)
-			h.m["$rem"] = app("store", e.heapGet(h, "$rem", "B"), args[0].T, app("bsub", rem, n.T, app("blen", rem)))
+			rest := e.fresh("rem", "B")
+			e.assert(app("=", rest, app("bsub", rem, n.T, app("blen", rem))))
+			e.assert(implies(and(reach, app("=", er.T, "nil")), app("=", rem, app("bcat", nb, rest)))) // a string is its first L bytes followed by the rest
+			h.m["$rem"] = app("store", e.heapGet(h, "$rem", "B"), args[0].T, rest)
 		}
 		e.havocKey(h, "$A")
 		e.assert(e.refOld(er, h))
@@ -102,6 +105,10 @@ func (e *Enc) extCall(ins ssa.Instruction, name string, callee *ssa.Function, si
 				fn := map[int]string{2: "ule16", 4: "ule32", 8: "ule64"}[w]
 				if !strings.Contains(name, "bigEndian") {
 					e.assert(implies(reach, app("=", r.T, app(fn, app("bsub", e.tokBytes(h, b.T), "0", ilit(int64(w)))))))
+				} else if w == 4 {
+					// big-endian value of the first four bytes of the content
+					bb := e.nameTerm("be", "B", app("bsub", e.tokBytes(h, b.T), "0", "4"))
+					e.assert(implies(reach, app("=", r.T, app("+", app("*", "16777216", app("bat", bb, "0")), app("*", "65536", app("bat", bb, "1")), app("*", "256", app("bat", bb, "2")), app("bat", bb, "3")))))
 				}
 			}
 		}
@@ -180,6 +187,10 @@ func (e *Enc) extCall(ins ssa.Instruction, name string, callee *ssa.Function, si
 		e.noteRoot(rs[0].T, "Ref", o)
 		h.m["$consumed"] = app("store", e.heapGet(h, "$consumed", "Int"), rs[0].T, "0")
 		h.m["$limit"] = app("store", e.heapGet(h, "$limit", "Int"), rs[0].T, app("slen", args[0].T))
+		if e.token && name == "bytes.NewReader" {
+			// what the reader will deliver is the content of the slice
+			h.m["$rem"] = app("store", e.heapGet(h, "$rem", "B"), rs[0].T, e.tokBytes(h, args[0].T))
+		}
 		e.setResult(res, rs)
 		return true
 	case "encoding/json.Unmarshal":
